@@ -112,6 +112,17 @@ def case_easter(mon, y):
     except Exception as ex:
         mon.dev("easter==computus", {"year": y, "raised": repr(ex)})
         return
+    import decimal
+    try:
+        with decimal.localcontext() as ctx:
+            ctx.prec = 3
+            ctx.rounding = decimal.ROUND_DOWN
+            got3 = Epoch.easter(y)
+    except Exception as ex:
+        got3 = repr(ex)
+    mon.check("independent-of-decimal-context", got3 == got,
+              lambda: {"function": "easter", "year": y,
+                       "default_context": list(got), "prec=3": repr(got3)})
     want = cal.easter(y)
     ident = ("easter", y)
     if y <= 0:
@@ -161,6 +172,20 @@ def case_pesach(mon, y):
     mon.check("pesach==15-nisan", wy == y and tuple(got) == (wm, wd_),
               {"year": y, "pesach": list(got), "15 Nisan": [wy, wm, wd_]},
               key_pesach(y))
+    # the same call with the thread's decimal context at 3 digits, rounding
+    # down: a date does not depend on the numeric context of the host
+    # application
+    import decimal
+    try:
+        with decimal.localcontext() as ctx:
+            ctx.prec = 3
+            ctx.rounding = decimal.ROUND_DOWN
+            got3 = Epoch.jewish_pesach(y)
+    except Exception as ex:
+        got3 = repr(ex)
+    mon.check("independent-of-decimal-context", got3 == got,
+              lambda: {"function": "jewish_pesach", "year": y,
+                       "default_context": list(got), "prec=3": repr(got3)})
     gn = _civil_jdn((y,) + tuple(got))
     wd = None if gn is None else (gn + 1) % 7
     mon.check("pesach.weekday", wd in (0, 2, 4, 6),
